@@ -144,7 +144,7 @@ def check_case(case):
         paths += [src, a, b]
         unmask_screen(parent).save_h5(src)
         try:
-            run_cli("prepare_retrospective_simulation", ["--data", src, "--training-output", a, "--test-output", b, "--plate-generator", "PlatePermutationPlateGenerator", "--holdout-fraction", case["fraction"], "--seed", case["seed"] % (2**31)])
+            run_cli("prepare_retrospective_simulation", ["--data", src, "--training-output", a, "--test-output", b, "--plate-generator", "PlatePermutationPlateGenerator", "--holdout-fraction", case["fraction"], "--seed", case["seed"] % (2**31)], verbose=case["seed"] % 2 == 1)
             train, test = Screen.load_h5(a), Screen.load_h5(b)
         except (ValueError, TypeError):
             tmp.cleanup(*paths)
@@ -242,7 +242,7 @@ def check_case(case):
                         _occupy(a, s, sc["control"])
                         _occupy(b, s, sc["control"])
                     s.save_h5(a)
-                    run_cli("reveal_plate", ["--screen", a, "--output", b, "--plate-id"] + ids)
+                    run_cli("reveal_plate", ["--screen", a, "--output", b, "--plate-id"] + ids, verbose=op["picks"][0] % 2 == 1)
                     s = Screen.load_h5(b)
             elif kind == "mask":
                 s = mask_screen(s)
